@@ -298,5 +298,5 @@ func TestC18(t *testing.T) {
 			}
 		}
 	})
-	r.Finish("(a) every sequence of 1..4 operations over {Success, Fail(A), Fail(B), Proceed, advance one RetryDelay, cancel context} (1554 sequences) on 5 transaction variants (retry with RetryCount 0/1/2, retry whose callback fails, timed) in lock-step virtual time; (b) 1-3 completion calls scheduled for the very virtual instant a retry/timeout timer fires; (c) 2-4 goroutines issuing completion calls with 0/1ns/1us/20us/200us real delays against timers of the same size. Oracle after every step and at the end: Err() constant once Done is closed, completion callback count exactly 1, no retry callback starting after Done was observed closed; (d) the client's sleep transaction through the real Client.Sleep against a scripted gateway: DISCONNECT replies instantly / exactly at / just before the retry timer's instant / never, PINGRESP instantly / at the 60 s limit / never / duplicated, Close() at timer instants - in virtual time (RetryDelay 2 s) and in real time with RetryDelay 0..1 ms; oracle: Sleep returns, and after it returned no DISCONNECT retransmission and no waking PINGREQ is sent. The 'race' phase runs the same list under the race detector and any report located in package transactions or in client.sleepTransaction decides. Distinct by (variant, operation sequence).", nil)
+	r.Finish("(a) every sequence of 1..4 operations over {Success, Fail(A), Fail(B), Proceed, advance one RetryDelay, cancel context} (1554 sequences) on 5 transaction variants (retry with RetryCount 0/1/2, retry whose callback fails, timed) in lock-step virtual time; (b) 1-3 completion calls scheduled for the very virtual instant a retry/timeout timer fires; (c) 2-4 goroutines issuing completion calls with 0/1ns/1us/20us/200us real delays against timers of the same size. Oracle after every step and at the end: Err() constant once Done is closed, completion callback count exactly 1, no retry callback starting after Done was observed closed; (d) the client's sleep transaction through the real Client.Sleep against a scripted gateway: DISCONNECT replies instantly / exactly at / just before the retry timer's instant / never, PINGRESP instantly / at the 60 s limit / never / duplicated, Close() at timer instants - in virtual time (RetryDelay 2 s) and in real time with RetryDelay 0..1 ms; oracle: Sleep returns, and (in histories without Close) after it returned no DISCONNECT retransmission and no waking PINGREQ is sent. The 'race' phase runs the same list under the race detector and any report located in package transactions or in client.sleepTransaction decides. Distinct by (variant, operation sequence).", nil)
 }
